@@ -377,7 +377,10 @@ func (r *RowCache) Update(uuid string, m model.Model, checkIndexes bool) (model.
 			}
 		}
 		for k, v := range removeIndexes[index] {
-			if indexSpec.isSchemaIndex() || substractUUIDSet(r.indexes[index][k], v).empty() {
+			// only remove the index if it is pointing to this uuid, it might
+			// already be pointing to a different row that took over the value
+			// if updates are processed out of order
+			if substractUUIDSet(r.indexes[index][k], v).empty() {
 				delete(r.indexes[index], k)
 			}
 		}
